@@ -108,13 +108,14 @@ Ltac prom :=
 
 Ltac rot_tac W8 :=
   cbv zeta; rewrite (rot_count_gen _ _ W8); cbn [obind];
-  match goal with |- context [?r =? 0] => destruct (r =? 0); [reflexivity|] end;
+  match goal with |- context [?r =? 0] => destruct (r =? 0); cbn [negb]; [reflexivity|] end;
   rewrite shl_res, shr_res by (cbn; lia); prom; rewrite !wu_wrapu by lia;
   unfold wrap_ty; cbn [sgn bits u8 u16 u32 u64 i8 i16 i32 i64];
   repeat match goal with
-         | |- context [shl_chk ?t ?x ?k] => destruct (shl_chk t x k) eqn:?; cbn [obind rbind res_of ok_of]; [|reflexivity]
-         | |- context [shr_chk ?t ?x ?k] => destruct (shr_chk t x k) eqn:?; cbn [obind rbind res_of ok_of]; [|reflexivity]
-         end.
+         | |- context [shl_chk ?t ?x ?k] => destruct (shl_chk t x k) eqn:?
+         | |- context [shr_chk ?t ?x ?k] => destruct (shr_chk t x k) eqn:?
+         end;
+  cbn [obind rbind res_of ok_of]; try reflexivity.
 
 Lemma shl_chk_range t x k z : shl_chk t x k = Some z -> sgn t = false -> 0 <= bits t -> 0 <= z < 2 ^ bits t.
 Proof.
@@ -133,6 +134,13 @@ Qed.
 (* finish: narrow types convert the OR back to UInt, wide types produce it in range *)
 Ltac rot_fin Hx :=
   first [ rewrite wu_wrapu by lia; reflexivity
+        | rewrite wu_wrapu by lia; rewrite Z.lor_comm; reflexivity
+        | rewrite Z.lor_comm; f_equal; symmetry; apply wu_small; [lia|];
+          apply lor_range; [lia | |];
+          match goal with
+          | H : shl_chk _ _ _ = Some ?z |- _ <= ?z < _ => apply (shl_chk_range _ _ _ _ H); [reflexivity | cbn; lia]
+          | H : shr_chk _ _ _ = Some ?z |- _ <= ?z < _ => apply (shr_chk_range _ _ _ _ _ H); [lia | exact Hx]
+          end
         | f_equal; symmetry; apply wu_small; [lia|];
           apply lor_range; [lia | |];
           match goal with
@@ -159,7 +167,7 @@ Proof. intros Hx. assert (HW : W 64) by (unfold W; lia). unfold Gen_bits.rotr_u6
 
 (** * single-bit functions (pos < digits: the documented precondition) *)
 Ltac bit_tac w :=
-  unfold bit_mask; (replace (_ <? w) with true by lia); cbn [rbind];
+  cbv zeta; unfold bit_mask; (replace (_ <? w) with true by lia); cbn [rbind];
   rewrite ?shl_res by (cbn; lia); prom;
   repeat match goal with
          | |- context [shl_chk ?t ?x ?k] => destruct (shl_chk t x k) eqn:?; cbn [obind rbind res_of ok_of]; [|reflexivity]
@@ -194,6 +202,8 @@ Ltac rng Hw :=
   end.
 
 Ltac bit_fin Hw :=
+  (* the operands of | & ^ may come in either order in the source: the word first *)
+  match type of Hw with _ <= ?wd < _ => rewrite ?(Z.lor_comm _ wd), ?(Z.land_comm _ wd), ?(Z.lxor_comm _ wd) end;
   unfold bnot, not_ty; prom; unwrap; rewrite ?wu_wrapu by lia;
   first [ (* narrow types *)
           progress rewrite ?wrapu_wraps by lia; reflexivity
@@ -336,11 +346,14 @@ Proof.
   apply chk_some in E. destruct E as [-> _]. reflexivity.
 Qed.
 
+(* the comparison b < a may be spelled with >=, >, <= and negations in the source *)
+Ltac cmp_norm := rewrite ?Z.geb_leb, ?Z.gtb_ltb, <- ?Z.ltb_antisym, <- ?Z.leb_antisym, ?Bool.negb_involutive.
+
 (* narrow types: everything is int arithmetic, checked on both sides; lockstep *)
 Ltac mid_small :=
   cbv zeta; cbn [bits sgn i8 u8 i16 u16]; prom;
   change (promote i8) with i32; change (promote u8) with i32; change (promote i16) with i32; change (promote u16) with i32;
-  rewrite ?wu_wrapu, ?cast_wrap_ty by (cbn; lia); unwrap;
+  rewrite ?wu_wrapu, ?cast_wrap_ty by (cbn; lia); unwrap; cmp_norm;
   match goal with |- context [?b <? ?a] => destruct (b <? a) end;
   repeat (cbn [obind rbind ok_of];
           change (wrapu 8 7) with 7; change (wrapu 16 15) with 15; change (wrapu 8 1) with 1; change (wrapu 8 0) with 0;
@@ -387,6 +400,7 @@ Ltac mid_norm :=
 Ltac mid_big :=
   cbv zeta; cbn [bits sgn i32 u32 i64 u64]; prom;
   change (promote i32) with i32; change (promote u32) with u32; change (promote i64) with i64; change (promote u64) with u64;
+  cmp_norm;
   match goal with |- context [?b <? ?a] => destruct (b <? a) end;
   repeat (cbn [obind rbind ok_of bits u32 u64]; ev_wu;
           ev_closed; cbn [obind rbind ok_of bits u32 u64];
@@ -487,28 +501,30 @@ Ltac div_tac :=
 Lemma div_sat_i8_eq x y : Gen_bits.div_sat_i8_g x y = ok_of (div_sat_m i8 x y).
 Proof.
   unfold Gen_bits.div_sat_i8_g. div_tac.
-  destruct ((x =? -128) && (y =? -1)); [reflexivity|].
-  rewrite arith_signed_res by reflexivity. destruct (chk i32 (x ÷ y)); cbn [obind rbind ok_of]; [|reflexivity].
-  now rewrite cast_wrap_ty by (cbn; lia).
+  (* the guard x == min and y == -1 may be one condition or nested ifs in either order *)
+  destruct (x =? -128), (y =? -1); cbn [andb]; try reflexivity;
+  (rewrite arith_signed_res by reflexivity; destruct (chk i32 (x ÷ y)); cbn [obind rbind ok_of]; [|reflexivity];
+   now rewrite cast_wrap_ty by (cbn; lia)).
 Qed.
 Lemma div_sat_i16_eq x y : Gen_bits.div_sat_i16_g x y = ok_of (div_sat_m i16 x y).
 Proof.
   unfold Gen_bits.div_sat_i16_g. div_tac.
-  destruct ((x =? -32768) && (y =? -1)); [reflexivity|].
-  rewrite arith_signed_res by reflexivity. destruct (chk i32 (x ÷ y)); cbn [obind rbind ok_of]; [|reflexivity].
-  now rewrite cast_wrap_ty by (cbn; lia).
+  (* the guard x == min and y == -1 may be one condition or nested ifs in either order *)
+  destruct (x =? -32768), (y =? -1); cbn [andb]; try reflexivity;
+  (rewrite arith_signed_res by reflexivity; destruct (chk i32 (x ÷ y)); cbn [obind rbind ok_of]; [|reflexivity];
+   now rewrite cast_wrap_ty by (cbn; lia)).
 Qed.
 Lemma div_sat_i32_eq x y : Gen_bits.div_sat_i32_g x y = ok_of (div_sat_m i32 x y).
 Proof.
   unfold Gen_bits.div_sat_i32_g. div_tac.
-  destruct ((x =? -2147483648) && (y =? -1)); [reflexivity|].
-  rewrite arith_signed_res by reflexivity. mid_signed_fin WT_i32'.
+  destruct (x =? -2147483648), (y =? -1); cbn [andb]; try reflexivity;
+  (rewrite arith_signed_res by reflexivity; mid_signed_fin WT_i32').
 Qed.
 Lemma div_sat_i64_eq x y : Gen_bits.div_sat_i64_g x y = ok_of (div_sat_m i64 x y).
 Proof.
   unfold Gen_bits.div_sat_i64_g. div_tac.
-  destruct ((x =? -9223372036854775808) && (y =? -1)); [reflexivity|].
-  rewrite arith_signed_res by reflexivity. mid_signed_fin WT_i64.
+  destruct (x =? -9223372036854775808), (y =? -1); cbn [andb]; try reflexivity;
+  (rewrite arith_signed_res by reflexivity; mid_signed_fin WT_i64).
 Qed.
 Lemma div_sat_u8_eq x y : Gen_bits.div_sat_u8_g x y = ok_of (div_sat_m u8 x y).
 Proof.
@@ -553,13 +569,13 @@ Qed.
 (** * abs (signed char, short: the negation is done in int) *)
 Lemma abs_i8_eq x : Gen_bits.abs_i8_g x = ok_of (abs_m i8 x).
 Proof.
-  unfold Gen_bits.abs_i8_g, abs_m, arith. cbn [sgn i8 andb]. change (promote i8) with i32.
+  unfold Gen_bits.abs_i8_g, abs_m, arith. cbn [sgn i8 andb]. change (promote i8) with i32. cmp_norm.
   destruct (x <? 0); [|reflexivity]. rewrite Z.sub_0_l, arith_signed_res by reflexivity.
   destruct (chk i32 (- x)); cbn [obind rbind ok_of]; [|reflexivity]. now rewrite cast_wrap_ty by (cbn; lia).
 Qed.
 Lemma abs_i16_eq x : Gen_bits.abs_i16_g x = ok_of (abs_m i16 x).
 Proof.
-  unfold Gen_bits.abs_i16_g, abs_m, arith. cbn [sgn i16 andb]. change (promote i16) with i32.
+  unfold Gen_bits.abs_i16_g, abs_m, arith. cbn [sgn i16 andb]. change (promote i16) with i32. cmp_norm.
   destruct (x <? 0); [|reflexivity]. rewrite Z.sub_0_l, arith_signed_res by reflexivity.
   destruct (chk i32 (- x)); cbn [obind rbind ok_of]; [|reflexivity]. now rewrite cast_wrap_ty by (cbn; lia).
 Qed.
@@ -571,8 +587,8 @@ Proof. intros H. unfold WT, W. repeat (destruct H as [-> | H]; [cbn; lia|]). sub
 Ltac wt := apply WT_of; tauto.
 
 Ltac cmp_fin Ht Hu :=
-  f_equal; apply in_ty_range in Ht; apply in_ty_range in Hu; consts; unwrap; unfold wrapu; consts;
-  repeat match goal with |- context [if ?c then _ else _] => destruct c eqn:? end; lia.
+  apply in_ty_range in Ht; apply in_ty_range in Hu; consts; unwrap; unfold wrapu; consts;
+  repeat match goal with |- context [if ?c then _ else _] => destruct c eqn:? end; f_equal; lia.
 
 Lemma cmp_less_i32_u32_eq t u : in_ty i32 t = true -> in_ty u32 u = true ->
   Gen_bits.cmp_less_i32_u32_g t u = Some (cmp_less_m i32 u32 t u).
